@@ -220,6 +220,10 @@ func (env *c18Env) apply(o c18Op) c18Res {
 				break
 			}
 		}
+		// the returned share is the caller's value: overwriting it must not reach any later SignShare
+		for i := range s {
+			s[i] ^= 0xA5
+		}
 		return c18Res{Kind: "sh", ID: id, Err: c18Err(err)}
 	case "ts":
 		s, err := env.insp.ThresholdSignature()
